@@ -51,6 +51,7 @@ Failing(r) ==
 (* the named deviation of SkyGeom.tla (if any) that admits a rejected record exactly *)
 DevAdmits(r) ==
   IF r.kind = "gc" /\ Failing(r) = {"AgreesWithVector"} /\ Dev_SubtractsRadiansRec(r) THEN "D-C18-1"
+  ELSE IF r.kind = "gc" /\ Dev_NegativeHaversineRec(r) THEN "D-C18-7"
   ELSE IF r.kind \in {"rt", "iso", "nu0"} /\ Dev_ArcsinNotClipped(r) THEN "D-C18-2"
   ELSE ""
 
@@ -74,6 +75,11 @@ Shortfalls ==
   \cup (IF Count(LAMBDA r : IsGc(r) /\ r.uas = 0 /\ ~r.ident) < MinPer THEN {"NeverNaN coincident, different coordinates"} ELSE {})
   \cup (IF Count(LAMBDA r : IsGc(r) /\ GcUnitsHDTriggered(r) /\ r.hexact /\ r.sepbin < FineBin) < MinPer THEN {"UnitsAgree hours exact, fine"} ELSE {})
   \cup (IF Count(LAMBDA r : IsGc(r) /\ GcUnitsRDTriggered(r)) < MinPer THEN {"UnitsAgree radians"} ELSE {})
+  (* single-precision coordinates: one point exactly at a pole (the other elsewhere), values demanded, identical, antipodal *)
+  \cup (IF Count(LAMBDA r : IsGc(r) /\ r.single /\ r.colatbin = -99 /\ r.uas >= 1 /\ r.sepdeg < 179) < 3 * MinPer THEN {"single precision, one point at a pole"} ELSE {})
+  \cup (IF Count(LAMBDA r : IsGc(r) /\ r.single /\ GcVecTriggered(r)) < 10 * MinPer THEN {"AgreesWithVector single precision"} ELSE {})
+  \cup (IF Count(LAMBDA r : IsGc(r) /\ r.single /\ r.ident) < MinPer THEN {"ZeroOnDiagonal single precision"} ELSE {})
+  \cup (IF Count(LAMBDA r : IsGc(r) /\ r.single /\ r.sepdeg >= 179) < MinPer THEN {"Range single precision antipodal"} ELSE {})
   (* every stripe has round trips in both directions, isometry pairs, nu = 0 probes, table rows *)
   \cup {"RoundTrip icrs stripe " \o ToString(s) : s \in Stripes \ StripesOf(LAMBDA r : r.kind = "rt" /\ r.dir = "icrs")}
   \cup {"RoundTrip munu stripe " \o ToString(s) : s \in Stripes \ StripesOf(LAMBDA r : r.kind = "rt" /\ r.dir = "munu")}
@@ -82,6 +88,14 @@ Shortfalls ==
   \cup {"NuZero inv stripe " \o ToString(s) : s \in Stripes \ StripesOf(LAMBDA r : r.kind = "nu0" /\ r.dir = "inv")}
   \cup {"StripeTable stripe " \o ToString(s) : s \in Stripes \ StripesOf(LAMBDA r : r.kind = "stripe")}
   \cup (IF Count(LAMBDA r : r.kind = "rt" /\ r.polar) < MinPer THEN {"RoundTrip polar"} ELSE {})
+  (* coordinate objects that carry a distance: every stripe, from both systems; every class of distance, every law *)
+  \cup {"RoundTrip icrs with a distance, stripe " \o ToString(s) : s \in Stripes \ StripesOf(LAMBDA r : r.kind = "rt" /\ r.dir = "icrs" /\ r.carrier # "direction")}
+  \cup {"RoundTrip munu with a distance, stripe " \o ToString(s) : s \in Stripes \ StripesOf(LAMBDA r : r.kind = "rt" /\ r.dir = "munu" /\ r.carrier # "direction")}
+  \cup {"Isometry with a distance, stripe " \o ToString(s) : s \in Stripes \ StripesOf(LAMBDA r : r.kind = "iso" /\ r.carrier # "direction")}
+  \cup {"NuZero inv with a distance, stripe " \o ToString(s) : s \in Stripes \ StripesOf(LAMBDA r : r.kind = "nu0" /\ r.dir = "inv" /\ r.carrier # "direction")}
+  \cup {"RoundTrip " \o x[1] \o " carrier " \o x[2] : x \in {y \in {"icrs", "munu"} \X (CarrierClasses \ {"mixed"}) :
+           Count(LAMBDA r : r.kind = "rt" /\ r.dir = y[1] /\ r.carrier = y[2]) < MinPer}}
+  \cup {"Isometry carrier " \o cc : cc \in {y \in CarrierClasses : Count(LAMBDA r : r.kind = "iso" /\ r.carrier = y) < MinPer}}
   (* one coordinate object handed to several transforms: array-valued and scalar, both directions *)
   \cup {"RoundTrip of a reused array object, from " \o d : d \in {x \in {"icrs", "munu"} :
            Count(LAMBDA r : r.kind = "rt" /\ r.dir = x /\ r.array /\ r.use >= 1) < MinPer}}
